@@ -34,6 +34,9 @@ import (
 	"math/rand/v2"
 	"os"
 	"reflect"
+	"runtime"
+	"runtime/debug"
+	"runtime/metrics"
 	"sort"
 	"strings"
 	"testing"
@@ -554,6 +557,28 @@ type outcome struct {
 // judgeTorrent runs ReadTorrent on in and applies every clause.  cls is the
 // input class of the generator (used in fingerprints only).
 func judgeTorrent(c *vk.C, in []byte, cls string) outcome {
+	o := judgeTorrent0(c, in, cls)
+	relieve(c)
+	return o
+}
+
+var heapSample = []metrics.Sample{{Name: "/memory/classes/heap/objects:bytes"}}
+
+// relieve: the bencode dependency allocates a string's announced length before
+// reading it (up to 2 GiB from a mutated length prefix).  That is not judged
+// here (C04 has the allocation bound), but two such blocks in a row must not
+// push the harness over its own ulimit, so garbage of that size is collected
+// at once.
+func relieve(c *vk.C) {
+	metrics.Read(heapSample)
+	if heapSample[0].Value.Kind() == metrics.KindUint64 && heapSample[0].Value.Uint64() > 256<<20 {
+		c.Count("forced_gc_after_big_allocation", 1)
+		runtime.GC()
+		debug.FreeOSMemory()
+	}
+}
+
+func judgeTorrent0(c *vk.C, in []byte, cls string) outcome {
 	c.Count("inputs", 1)
 	c.Count("torrent_inputs", 1)
 	v := scan(in)
